@@ -118,6 +118,37 @@ Proof.
 Qed.
 Print Assumptions C15_declares_needed_full.
 
+(* P6'' the flags are a plain OR over ALL modules: a module that triggers a feature switches the flag on
+       wherever it stands in the module list and whatever the modules before it did (no early exit, no
+       dependence on scanning order) *)
+Theorem C15_flags_over_all_modules : forall T ms1 m ms2,
+  (detect (t_serde T) trig_serde m = true -> flag_serde T (ms1 ++ m :: ms2) = true) /\
+  (detect (t_async T) trig_async m = true -> flag_tokio T (ms1 ++ m :: ms2) = true) /\
+  (detect (t_web T) trig_web m = true ->
+     flag_web T (ms1 ++ m :: ms2) = true /\ flag_serde T (ms1 ++ m :: ms2) = true /\ flag_tokio T (ms1 ++ m :: ms2) = true).
+Proof.
+  intros T ms1 m ms2.
+  assert (E : forall f : node -> bool, f m = true -> existsb f (ms1 ++ m :: ms2) = true).
+  { intros f H. rewrite existsb_app. cbn [existsb]. rewrite H. now rewrite orb_true_r. }
+  unfold flag_serde, flag_tokio, flag_web. split; [|split].
+  - intros H. now rewrite (E _ H).
+  - intros H. now rewrite (E _ H).
+  - intros H. rewrite (E _ H). repeat split; try reflexivity; apply orb_true_r.
+Qed.
+Print Assumptions C15_flags_over_all_modules.
+
+Theorem C15_flags_order_free : forall T ms1 ms2, Permutation ms1 ms2 ->
+  flag_serde T ms1 = flag_serde T ms2 /\ flag_tokio T ms1 = flag_tokio T ms2 /\ flag_web T ms1 = flag_web T ms2.
+Proof.
+  intros T ms1 ms2 P.
+  assert (E : forall f : node -> bool, existsb f ms1 = existsb f ms2).
+  { intros f. destruct (existsb f ms1) eqn:A; destruct (existsb f ms2) eqn:B; try reflexivity.
+    - apply existsb_exists in A as [x [I H]]. assert (existsb f ms2 = true) by (apply existsb_exists; exists x; split; [eapply Permutation_in; eauto | exact H]). congruence.
+    - apply existsb_exists in B as [x [I H]]. assert (existsb f ms1 = true) by (apply existsb_exists; exists x; split; [eapply Permutation_in; [apply Permutation_sym|]; eauto | exact H]). congruence. }
+  unfold flag_serde, flag_tokio, flag_web. now rewrite !E.
+Qed.
+Print Assumptions C15_flags_order_free.
+
 (* P7 declares only what is needed: every dependency is a runtime crate, follows from a feature some
       module of the program really uses, or is a `rust::` import of some module *)
 Theorem C15_declares_only_needed : forall T name root ver main dps c,
